@@ -54,3 +54,11 @@ type Seen struct {
 func Snap(c vnet.Chunk) Seen {
 	return Seen{Tag: c.Tag(), Src: c.SourceAddr().String(), Dst: c.DestinationAddr().String(), Hash: Hash(c.UserData()), Len: len(c.UserData()), Ptr: c}
 }
+
+// PayloadID returns the id carried in the first 8 bytes of a payload built by Payload (0 if shorter).
+func PayloadID(b []byte) uint64 {
+	if len(b) < 8 {
+		return 0
+	}
+	return binary.BigEndian.Uint64(b)
+}
